@@ -69,7 +69,7 @@ def build_tree(forest, data, order=None):
 
 
 # ------------------------------------------------------------------ data
-def make_data(rng, n, samples=1, grid=5, style="gauss", outlier_prob=0.0, spread=6.0, hetero=False):
+def make_data(rng, n, samples=1, grid=5, style="gauss", outlier_prob=0.0, spread=6.0, hetero=False, sample_levels=None):
     """n DataPoints with (samples x grid) log-likelihood rows inside a small dynamic range.
     rng: random.Random (the harness PRNG, never the device under test)."""
     from phyclone.data.base import DataPoint
@@ -97,6 +97,10 @@ def make_data(rng, n, samples=1, grid=5, style="gauss", outlier_prob=0.0, spread
                 row = np.maximum(row, -spread * 3)
             else:
                 row = np.array([rng.gauss(0.0, 1.0) * spread / 3.0 for _ in range(grid)])
+            if sample_levels:
+                # samples of very different depth: every row of sample s sits at its own level (the dynamic range inside a row
+                # is unchanged); over many data points the samples' totals end up hundreds of nats apart
+                row = row + float(sample_levels[s % len(sample_levels)])
             rows.append(row)
         val = np.ascontiguousarray(np.array(rows, dtype=np.float64))
         if outlier_prob and outlier_prob > 0:
@@ -130,6 +134,33 @@ def clear_caches():
     for f in (_get_cached_full_proposal_dist, _get_cached_semi_proposal_dist, get_cached_new_tree, compute_log_S,
               _convolve_two_children):
         f.cache_clear()
+
+
+class unmemoised(object):
+    """Context: the recursion's memoised functions are replaced, wherever the tree code looks them up, by their undecorated
+    originals - a rebuild inside it is a recomputation from scratch, whatever the process-wide caches hold."""
+    SITES = {"compute_log_S": ["phyclone.tree.utils", "phyclone.tree.tree_node"], "_convolve_two_children": ["phyclone.tree.utils"]}
+
+    def __enter__(self):
+        import importlib
+
+        self.saved = []
+        for name, mods in self.SITES.items():
+            for modname in mods:
+                try:
+                    mod = importlib.import_module(modname)
+                except ImportError:
+                    continue
+                f = getattr(mod, name, None)
+                if f is not None and hasattr(f, "__wrapped__"):
+                    self.saved.append((mod, name, f))
+                    setattr(mod, name, f.__wrapped__)
+        return self
+
+    def __exit__(self, *a):
+        for mod, name, f in self.saved:
+            setattr(mod, name, f)
+        return False
 
 
 def clear_proposal_caches():
